@@ -1009,7 +1009,7 @@ func (g *c31gate) explore() {
 	}
 	call := func(n string) c31item { return c31item{call: n} }
 	gh := func(s string) c31item { return c31item{ghost: s} }
-	pollRecords := []c31item{call("waitAndAddPoller"), gh("outstanding+")}                              // a poll that returns records
+	pollRecords := []c31item{call("waitAndAddPoller"), gh("outstanding+")}                                  // a poll that returns records
 	pollEmpty := []c31item{call("waitAndAddPoller"), gh("inflight+"), gh("inflight-"), call("unaddPoller")} // a poll that returns nothing
 	allow := []c31item{gh("outstanding=0"), call("allowRebalance")}
 	reb := []c31item{call("waitAndAddRebalanceMaybeSignal"), gh("revoking+"), gh("revoking-"), call("unaddRebalance")}
